@@ -16,6 +16,11 @@ def _placement(deadline, rng, tier):
     return witness_alpha.search_syntax(deadline, rng)
 
 
+def _l1800(deadline, rng, tier):
+    from . import witness_alpha
+    return witness_alpha.search_l1800(deadline, rng)
+
+
 def _types(deadline, rng, tier):
     from . import witness_types
     return witness_types.search(deadline, rng)
@@ -71,7 +76,9 @@ SUITES = {
     'C04': [('label_scoping', _labels, 'surfacing of E400/E420 through the resolver',
              'random function bodies: <= 12 statements, 2 label names, nesting depth <= 3; gotos, conditional gotos, labels, blocks, if-blocks')],
     'C06': [('statement_placement', _placement, 'surfacing of E800/E801/E840 through the resolver',
-             'random function bodies: <= 12 statements, nesting depth <= 3; loop, if/else with and without braces, goto, blocks')],
+             'random function bodies: <= 12 statements, nesting depth <= 3; loop, if/else with and without braces, goto, blocks'),
+            ('lint_l1800', _l1800, 'the path from linter to reported lints; typer in between',
+             'random placement-valid bodies (depth <= 4): exactly one L1800 per braced branch whose first statement is loop, none otherwise')],
     'C07': [('operators_and_calls', _types, 'the typer (unification, Autocoerce insertion)',
              'every binary/comparison/unary operator x 15 operand types (identical pairs; 6 random mixed pairs per operator); calls with 0..3 parameters: exact, one argument dropped, one added, one mistyped, & missing')],
     'C08': [('mutating_uses', _mut, 'the whole-program consequence; the typer',
